@@ -338,6 +338,29 @@ def r6(ctx: Context) -> None:
         ctx.add("R6", f"{c.qualname}::inverse-library-calls", pair, s.loc(), "" if pair else "serialize and deserialize do not use inverse functions of one library")
 
 
+def r7(ctx: Context) -> None:
+    ctx.rule("R7", "one serialisation policy for task arguments: in the call / task modules every task-argument dictionary goes through client_data_store.serialize_arguments(<dict>, <task>.conf.disable_cache_args) - the inline-vs-reference decision is part of the serialised text that argument indexes and concurrency keys compare, so a site that decides differently (per-value serialize(), another disable list) gives the same call two identities")
+    repo = ctx.repo
+    n = 0
+    for modname in ("pynenc.call", "pynenc.task"):
+        m = repo.modules.get(modname)
+        if m is None:
+            raise AnalysisError(f"anchor-vanished: module {modname}")
+        for f in [x for x in repo.all_functions() if x.module is m]:
+            for c in calls_in(f.node):
+                if not (isinstance(c.func, ast.Attribute) and isinstance(c.func.value, ast.Attribute) and c.func.value.attr == "client_data_store"):
+                    continue
+                if c.func.attr == "serialize_arguments":
+                    n += 1
+                    second = c.args[1] if len(c.args) > 1 else next((k.value for k in c.keywords if k.arg == "disable_cache_args"), None)
+                    ok = second is not None and isinstance(second, ast.Attribute) and second.attr == "disable_cache_args" and "conf" in ast.unparse(second)
+                    ctx.add("R7", f"{f.qualname}::arguments-serialised-with-the-task-policy", ok, f.loc(c), "" if ok else f"serialize_arguments is given `{ast.unparse(second) if second is not None else None}` instead of the task's disable_cache_args")
+                elif c.func.attr == "serialize":
+                    n += 1
+                    ctx.fail("R7", f"{f.qualname}::arguments-serialised-with-the-task-policy", f.loc(c), f"`{ast.unparse(c)[:70]}` serialises an argument value on its own, without the task's disable_cache_args: a value listed there (or '*') is externalised here and kept inline where the call is built directly - equal calls get different serialised arguments, argument indexes and concurrency keys")
+    ctx.floor("R7", "argument serialisation sites", n, 3)
+
+
 def run(ctx: Context) -> None:
     sites = sqlmini.sites(ctx.repo)
     r1(ctx)
@@ -345,6 +368,7 @@ def run(ctx: Context) -> None:
     r3(ctx, sites)
     r4_r5(ctx)
     r6(ctx)
+    r7(ctx)
     ctx.exhaustive = True
     ctx.not_decided += [
         "value round-trip for each serializer (quantifies over values; pickle / jsonpickle are third-party)",
